@@ -524,8 +524,9 @@ def subset_double_column(c):
     subset_fixed(c)
 
 
-@contract("tables.c", "subset_ragged_char_column", ["data", "offset_col", "num_rows", "keep"])
-def subset_ragged_char_column(c):
+def subset_ragged(c, remap=False):
+    """keep_rows kernel of a ragged column: the kept rows' slices are moved down in order, the new boundaries are the
+    ghost newoff; with remap=True every non-null element is replaced by id_map of it (self-referencing column)"""
     datap, offp, n, keepp = c.arg("data"), c.arg("offset_col"), c.arg("num_rows"), c.arg("keep")
     h = c.old
     keep = keep_pre(c, n, keepp)
@@ -536,13 +537,22 @@ def subset_ragged_char_column(c):
     c.requires(newoff_axioms(keep, off0, n))
     newoff = newoff_of(off0)
     d0 = h.arr(datap) if datap.region is not None else None
+    val = lambda x: x
+    if remap:
+        mp = c.arg("id_map")
+        c.requires(z3.Implies(n > 0, z3.And(z3.Not(h.isnull(mp)), mp.off == 0, h.len(mp) >= n)))
+        m = h.arr(mp)
+        # what keep_rows has checked before calling: the references held by kept rows are NULL or rows of the table
+        c.requires(z3.ForAll([i, b_], z3.Implies(z3.And(0 <= i, i < n, keep[i] != 0, off0[i] <= b_, b_ < off0[i + 1]),
+                                                 z3.And(-1 <= d0[b_], d0[b_] < n))), "references_checked")
+        val = lambda x: z3.If(x == -1, -1, m[x])
 
     def rows_placed(d, o, upto):
         # kept rows before `upto`: new offset and bytes
         return z3.ForAll([i], z3.Implies(z3.And(0 <= i, i < upto, keep[i] != 0), z3.And(
             o[rank(i)] == newoff(i),
             z3.ForAll([b_], z3.Implies(z3.And(0 <= b_, b_ < off0[i + 1] - off0[i]),
-                                       d[newoff(i) + b_] == d0[off0[i] + b_])))))
+                                       d[newoff(i) + b_] == val(d0[off0[i] + b_]))))))
 
     a_, a2_ = z3.Ints("a a2")
 
@@ -568,7 +578,7 @@ def subset_ragged_char_column(c):
                       prefix_sorted(o, s.k + 1, s.offset),
                       rows_placed(d, o, jj), o[rank(jj)] == newoff(jj),
                       z3.ForAll([b_], z3.Implies(z3.And(0 <= b_, b_ < s.i - off0[jj]),
-                                                 d[newoff(jj) + b_] == d0[off0[jj] + b_])),
+                                                 d[newoff(jj) + b_] == val(d0[off0[jj] + b_]))),
                       z3.ForAll([i], z3.Implies(z3.And(jj < i, i <= n), o[i] == off0[i])),
                       z3.Or(rank(jj) < jj, o[jj] == off0[jj]),
                       z3.ForAll([b_], z3.Implies(z3.And(s.i <= b_, b_ < off0[n]), d[b_] == d0[b_])))
@@ -584,6 +594,21 @@ def subset_ragged_char_column(c):
         "new_boundaries_start_at_zero_and_never_decrease")
     c.assigns(datap)
     c.assigns(offp)
+
+
+@contract("tables.c", "subset_ragged_char_column", ["data", "offset_col", "num_rows", "keep"])
+def subset_ragged_char_column(c):
+    subset_ragged(c)
+
+
+@contract("tables.c", "subset_ragged_double_column", ["data", "offset_col", "num_rows", "keep"])
+def subset_ragged_double_column(c):
+    subset_ragged(c)
+
+
+@contract("tables.c", "subset_remap_ragged_id_column", ["data", "offset_col", "num_rows", "keep", "id_map"])
+def subset_remap_ragged_id_column(c):
+    subset_ragged(c, remap=True)
 
 
 # ------------------------------------------------------------------------------------------ union / subset helper
